@@ -99,8 +99,11 @@ let dump (g : game) : string =
     (List.length g.g_moves)
 
 (* ---- session ----------------------------------------------------------------------- *)
-type session = { mutable game : game option; mutable pushed : move list }
-let sess = { game = None; pushed = [] }
+type session = { mutable game : game option; mutable pushed : move list; mutable table : table; mutable hist : z list }
+let zero_hist () = List.init 768 (fun _ -> Z0)
+let sess = { game = None; pushed = []; table = tempty; hist = zero_hist () }
+let ints_of (s : string) : int list =
+  List.filter_map (fun x -> if x = "" then None else Some (try int_of_string x with _ -> 0)) (String.split_on_char ' ' s)
 
 let full_state (g : game) : string * game =
   (* both generators threaded as the implementation does; returns the game left behind *)
@@ -203,6 +206,36 @@ let run (line : string) : unit =
           | None -> print_string "parse none legal=0\n")
   | "pgn" -> with_game cmd (fun g -> Printf.printf "pgn %s\n" (hex_of_string (string_of_text (get_pgn g))))
   | "show" -> with_game cmd (fun g -> Printf.printf "show %s\n" (hex_of_string (string_of_text (display g))))
+  | "cleartable" -> sess.table <- tempty; sess.hist <- zero_hist (); print_string "cleartable ok\n"
+  | "search" ->
+      with_game cmd (fun g ->
+          let a = ints_of rest in
+          let nth k d = try List.nth a k with _ -> d in
+          let depth = nth 0 1 and stop_at = nth 1 (-1) and tableless = nth 2 0 <> 0 in
+          let r = driver g sess.table (if depth > 0 then Some (z_of_int depth) else None) (z_of_int stop_at) tableless in
+          List.iter (fun l -> print_string (string_of_text l ^ "\n")) r.d_lines;
+          sess.table <- r.d_st.s_tbl;
+          if not r.d_fuel_ok then print_string "!! out of fuel\n";
+          Printf.printf "best %s polls=%d after=%d table=%d\n"
+            (match r.d_move with Some m -> uci_s m | None -> "none")
+            (int_of_z r.d_st.s_polls) (int_of_z r.d_st.s_after) (int_of_z (tlen r.d_st.s_tbl)))
+  | "root" ->
+      with_game cmd (fun g ->
+          let a = ints_of rest in
+          let nth k d = try List.nth a k with _ -> d in
+          let depth = max 1 (nth 0 1) and tableless = nth 1 0 <> 0 and fresh = nth 2 1 <> 0 in
+          if fresh then sess.hist <- zero_hist ();
+          if tableless then sess.table <- tempty;
+          let st0 = fresh_state sess.table (z_of_int (-1)) tableless in
+          let st0 = { st0 with s_hist = sess.hist } in
+          (match root g st0 (nat_of_int depth) with
+           | (Done ((m, score), only), st1) ->
+               sess.table <- st1.s_tbl; sess.hist <- st1.s_hist;
+               Printf.printf "root move=%s score=%d only=%d polls=%d\n"
+                 (match m with Some m -> uci_s m | None -> "none") (int_of_z score) (if only then 1 else 0)
+                 (int_of_z st1.s_polls)
+           | (Aborted _, _) -> print_string "root aborted\n"
+           | (OutOfFuel, _) -> print_string "!! out of fuel\n"))
   | "tables" ->
       let table name t = Printf.printf "table %s %s\n" name (String.concat "," (List.map (fun s -> string_of_int (int_of_z s)) t)) in
       table "QUEEN_SCORES" qUEEN_SCORES; table "ROOK_SCORES" rOOK_SCORES;
